@@ -68,4 +68,23 @@ PROPS = {
             sub("neigh_api", "c06_neigh", 2500, 60000),
             sub("ball_knn", "c06_neigh", 3000, 100000),
         ]),
+    "C20": dict(
+        level="exploration",
+        rule=("rapidcheck-generated simple polygons on an integer lattice (polyomino outlines with collinear vertices, star-shaped lattice polygons, "
+              "convex hulls; both orientations, closed/open, any start vertex, 3-400 vertices) scaled/translated by powers of two (exact in binary); "
+              "query points forced level with vertices and horizontal edges and never on the boundary (exact integer on-segment test); truth = exact "
+              "64-bit integer even-odd rule / cell membership; polygon sets with per-element z-limits (union and nested rules); db_polygon selection "
+              "column vs per-sample truth; convex hull vs an exact hull; non-trivial = a query level with a vertex/horizontal edge, >=2 elements for "
+              "sets, >=4 active samples with a query level with a hull vertex; distinct = hash of the case text"),
+        assumptions=["z equal to a limit is not generated; NA z or 2-D points pass the vertical tests",
+                     "open rings are closed by Polygons::inside; vertices are >= 2^-10 apart (the 1e-5 closing tolerance never bites)",
+                     "with flag_sel masked samples get 0 and the new column becomes the only selection",
+                     "hull dilation is only bracketed (selected below 0.9 r, not selected above r)",
+                     "data for hulls contain >=3 non-aligned active samples"],
+        subs=[
+            sub("pip_single", "c20_polygon", 12000, 640000),
+            sub("polygon_sets", "c20_polygon", 8000, 320000),
+            sub("db_polygon_selection", "c20_polygon", 5000, 130000),
+            sub("convex_hull", "c20_polygon", 8000, 320000),
+        ]),
 }
